@@ -179,6 +179,10 @@ def mutations(rng, img, meta):
                 mut(f"dir-clus-self@{o}", lambda b, o=o: b.__setitem__(slice(o + 26, o + 28), struct.pack("<H", (sub[0]["cluster"] if sub else 2) & 0xFFFF)))
                 mut(f"dir-clus-big@{o}", lambda b, o=o: b.__setitem__(slice(o + 26, o + 28), b"\xf0\xff"))
                 mut(f"dir-attr-dir@{o}", lambda b, o=o: b.__setitem__(o + 11, b[o + 11] ^ 0x10))
+                # the FIRST name byte alone: a blank (the specification forbids it, damaged images have it; C13-m10 turned it into a third "free"
+                # mark that the directory scanner does not know), the 0x05 stand-in, a dot, a control character
+                for nb in (0x20, 0x05, 0x2E, 0x01):
+                    mut(f"dir-name0={nb:#04x}@{o}", lambda b, o=o, nb=nb: b.__setitem__(o, nb))
                 mut(f"dir-name-bytes@{o}", lambda b, o=o: b.__setitem__(slice(o, o + 11), bytes(rng.randrange(1, 256) for _ in range(11))))
     for off, fmt, vals, nm in ((11, "<H", (0, 3, 256, 8192, 65535), "bps"), (13, "<B", (0, 3, 255), "spc"), (14, "<H", (0, 65535), "rsvd"), (16, "<B", (0, 255), "nfats"),
                                (17, "<H", (1, 17, 65535), "rootent"), (19, "<H", (1, 65535), "tot16"), (21, "<B", (0, 0xF7), "media"), (22, "<H", (0, 1, 65535), "fatsz16"),
@@ -211,8 +215,9 @@ def run(ctx):
         muts = mutations(rng, img, meta)
         rng.shuffle(muts)
         if ctx.tier == "quick":
-            forced = [m for m in muts if m[0].startswith("truncate-in-dir")]      # few and cheap: every quick run has them
-            muts = forced + [m for m in muts if not m[0].startswith("truncate-in-dir")][:130] if not big else [m for m in muts if m[0].startswith(("dir-clus", "fat-one", "lfn-clus"))][:40]
+            lead = [m for m in muts if m[0].startswith("dir-name0")]
+            forced = [m for m in muts if m[0].startswith("truncate-in-dir")] + lead[:12]      # few and cheap: every quick run has them
+            muts = forced + [m for m in muts if not m[0].startswith("truncate-in-dir") and m not in lead[:12]][:130] if not big else [m for m in muts if m[0].startswith(("dir-clus", "fat-one", "lfn-clus"))][:40]
         limit = 400000 + 4 * len(img)       # calls: proportional to the image size (theorem: reads <= clusters x slots per listing)
         for kind, b in muts:
             if ctx.time_left() < 10:
